@@ -224,3 +224,97 @@ Example C05_example_stream :
   C05_ex_obs (map zero_npo us) 0 [] = (Accept, 1, [7]) /\
   map u_npo (map zero_npo us) = [20; 0; 0; 0; 0] /\ pics_from None (tl us) = [7].
 Proof. vm_compute. repeat split; reflexivity. Qed.
+
+(* ==========================================================================================
+   (b), (b') for the CONCRETE generic ordering pattern (integration with C18; Proofs/IntegStreamPatterns.v;
+   ADDED, nothing above changed).  The validator model's generic automaton is the C18 Matcher model of
+   "sequence_header .* end_of_sequence" (Model/IntegSeq.v gstart_m / mstep; C03_generic_pattern_parse,
+   C03_pattern_automaton_iff_lang); the level's automaton stays abstract.  A padding / auxiliary data unit or
+   a repeat of the header inserted after the first data unit of an accepted sequence, before any later one
+   (the last included), keeps the generic pattern matched (first unit still the header, last unit still
+   the end of sequence), so the hypothesis `generic_pattern_ok us'` and the Section hypothesis Hgen of the
+   theorems above are gone.  What remains: the LEVEL's pattern must allow the new parse-code sequence
+   (level_pattern_ok us'), and picture content is not in the observation: still `_partial`.
+   ========================================================================================== *)
+From VC2 Require Import Model.Regex Model.Matcher Model.IntegSeq Proofs.IntegPatterns Proofs.IntegStreamPatterns.
+
+Section C05_stream_generic.
+  Variable lst : Type.
+  Variable lstart : Z -> lst.
+  Variable lstep : Z -> lst -> symbol -> option lst.
+  Variable lcomplete : Z -> lst -> bool.
+  Variable level_known : Z -> bool.
+
+  Notation Grun := (run matcher gstart_m mstep is_complete lst lstart lstep lcomplete level_known false).
+  Notation Gobs := (run_obs matcher gstart_m mstep is_complete lst lstart lstep lcomplete level_known false true
+                            (init_state matcher gstart_m lst)).
+
+  Theorem C05_padding_and_aux_units_irrelevant_generic_partial : forall u0 h0 a x u b,
+    let us := u0 :: a ++ u :: b in
+    let us' := u0 :: a ++ x :: set_ppo u (u_len x) :: b in
+    u_kind u0 = KSeqHdr h0 ->
+    (u_kind x = KPad \/ u_kind x = KAux) -> u_npo x = u_len x ->
+    PARSE_INFO_HEADER_BYTES <= u_len x -> u_ppo x = u_ppo u ->
+    units_valid level_known us = true -> one_sequence us = true -> Grun us = Accept ->
+    level_pattern_ok lst lstart lstep lcomplete us' = true ->
+    Grun us' = Accept /\ Gobs us' 0 [] = Gobs us 0 [] /\ eos_only_last us' = true /\ Mgeneric_ok us' = true.
+  Proof.
+    exact (fun u0 h0 a x u b Ek Hk Hn =>
+             insert_neutral_irrelevant_generic lst lstart lstep lcomplete level_known u0 h0 a x u b Ek
+               (conj (match Hk with or_introl e => or_introl e | or_intror e => or_intror (or_introl e) end) Hn)).
+  Qed.
+
+  Theorem C05_repeated_sequence_header_irrelevant_generic_partial : forall u0 h0 a x u b,
+    let us := u0 :: a ++ u :: b in
+    let us' := u0 :: a ++ x :: set_ppo u (u_len x) :: b in
+    u_kind u0 = KSeqHdr h0 ->
+    u_kind x = KSeqHdr h0 -> u_npo x = u_len x ->
+    PARSE_INFO_HEADER_BYTES <= u_len x -> u_ppo x = u_ppo u ->
+    units_valid level_known us = true -> one_sequence us = true -> Grun us = Accept ->
+    level_pattern_ok lst lstart lstep lcomplete us' = true ->
+    Grun us' = Accept /\ Gobs us' 0 [] = Gobs us 0 [] /\ eos_only_last us' = true /\ Mgeneric_ok us' = true.
+  Proof.
+    exact (fun u0 h0 a x u b Ek Hk Hn =>
+             insert_neutral_irrelevant_generic lst lstart lstep lcomplete level_known u0 h0 a x u b Ek
+               (conj (or_intror (or_intror Hk)) Hn)).
+  Qed.
+End C05_stream_generic.
+
+(* both automata the C18 Matcher, ANY level table lvl_re: when the level's pattern is `.*` (level 0,
+   unconstrained -- the level of most generated test cases) NO pattern hypothesis is left: padding,
+   auxiliary data and repeated headers (x neutral: one of the three, next_parse_offset = length) inserted
+   anywhere after the first data unit of an accepted sequence give an accepted sequence with the same output *)
+Theorem C05_neutral_units_irrelevant_unconstrained_level_partial :
+  forall (lvl_re : Z -> re) (level_known : Z -> bool) u0 h0 a x u b,
+  let us := u0 :: a ++ u :: b in
+  let us' := u0 :: a ++ x :: set_ppo u (u_len x) :: b in
+  lvl_re (h_level h0) = Star Any ->
+  u_kind u0 = KSeqHdr h0 ->
+  ((u_kind x = KPad \/ u_kind x = KAux \/ u_kind x = KSeqHdr h0) /\ u_npo x = u_len x) ->
+  PARSE_INFO_HEADER_BYTES <= u_len x -> u_ppo x = u_ppo u ->
+  units_valid level_known us = true -> one_sequence us = true -> Mrun lvl_re level_known us = Accept ->
+  Mrun lvl_re level_known us' = Accept /\
+  run_obs matcher gstart_m mstep is_complete matcher (lstart_m lvl_re) lstep_m lcomplete_m level_known false true
+          (init_state matcher gstart_m matcher) us' 0 [] =
+  run_obs matcher gstart_m mstep is_complete matcher (lstart_m lvl_re) lstep_m lcomplete_m level_known false true
+          (init_state matcher gstart_m matcher) us 0 [] /\
+  eos_only_last us' = true.
+Proof. exact insert_neutral_irrelevant_unconstrained. Qed.
+
+(* non-vacuity with the Matcher as generic automaton (no level restriction): the fragmented picture of
+   C05_example_stream with a padding unit before the second slice fragment, and with the header repeated
+   before the end of sequence: accepted, picture 7 output *)
+Example C05_example_stream_generic :
+  let obs := run_obs matcher gstart_m mstep is_complete unit (fun _ => tt) (fun _ _ _ => Some tt) (fun _ _ => true) (fun _ => true)
+                     false true (init_state matcher gstart_m unit) in
+  let hdr := mkUnit (KSeqHdr (mkHdr 1 3 3 0 0 1)) 20 20 0 in
+  let tp := mkTp 4 4 0 2 1 in
+  let us := [hdr; mkUnit (KFragFirst true 7 tp) 30 30 20; mkUnit (KFragData true 7 1 0 0) 40 40 30;
+             mkUnit (KFragData true 7 1 1 0) 40 40 40; mkUnit KEos 13 0 40] in
+  let us' := [hdr; mkUnit (KFragFirst true 7 tp) 30 30 20; mkUnit (KFragData true 7 1 0 0) 40 40 30;
+              mkUnit KPad 17 17 40; mkUnit (KFragData true 7 1 1 0) 40 40 17; mkUnit KEos 13 0 40] in
+  let us'' := [hdr; mkUnit (KFragFirst true 7 tp) 30 30 20; mkUnit (KFragData true 7 1 0 0) 40 40 30;
+               mkUnit (KFragData true 7 1 1 0) 40 40 40; mkUnit (KSeqHdr (mkHdr 1 3 3 0 0 1)) 20 20 40; mkUnit KEos 13 0 20] in
+  obs us 0 [] = (Accept, 1, [7]) /\ obs us' 0 [] = (Accept, 1, [7]) /\ obs us'' 0 [] = (Accept, 1, [7]) /\
+  Mgeneric_ok us' = true /\ Mgeneric_ok us'' = true /\ Mgeneric_ok (tl us') = false.
+Proof. vm_compute. repeat split; reflexivity. Qed.
